@@ -310,6 +310,10 @@ def set_time_metadata(g, pid):
                 body = [ast.unparse(b) for b in lp.body]
                 want = ["metadata_dict.update((('mn', mn), ('vr', vr)))",
                         "metadata_array.append(schema.validate_and_encode_row(metadata_dict))"]
+                # an optional leading guard that only raises (rejecting non-mapping rows) is allowed
+                if body and isinstance(lp.body[0], ast.If) and all(isinstance(x, ast.Raise) for x in lp.body[0].body) \
+                        and not lp.body[0].orelse:
+                    body = body[1:]
                 ok = body == want
                 why = f"loop body is {body}"
         if ok and "return metadata_array" not in src:
@@ -1237,3 +1241,69 @@ def preprocess_frame(g):
         return None
     g.forall_paths(f"{name}:user-intervals-exclusive", paths, exclusive,
                    "delete_intervals given together with minimum_gap/erase_flanks  =>  ValueError")
+
+
+# ---------------------------------------------------------------------------------------------
+def rescale_orientation(g):
+    """C23 call-site obligation: the phase handed to reallocate_unphased credits the larger share to the
+    branch each singleton has been placed on."""
+    import z3
+    name = "variational.ExpectationPropagation.rescale"
+    try:
+        fn = extract.get_function(name)
+        inf = extract.get_function("variational.ExpectationPropagation.infer")
+    except LookupError as e:
+        g.ob(f"{name}:attach", False, "functions exist", str(e), verdict="does-not-attach")
+        return
+    g.ctx.functions.append({**fn.describe(), "mode": "G3 data-flow + z3 scalar lemma"})
+    defs = {}
+    stores = []
+    for n in ast.walk(fn.node):
+        if isinstance(n, ast.Assign) and len(n.targets) == 1:
+            t = n.targets[0]
+            if isinstance(t, ast.Name):
+                defs[t.id] = ast.unparse(n.value)
+            elif isinstance(t, ast.Subscript):
+                stores.append((ast.unparse(t), ast.unparse(n.value)))
+    calls_ = [n for n in ast.walk(fn.node) if isinstance(n, ast.Call) and ast.unparse(n.func) == "reallocate_unphased"]
+    if len(calls_) != 1:
+        g.ob(f"{name}:attach", False, "one reallocate_unphased call", f"{len(calls_)} calls", verdict="does-not-attach")
+        return
+    a = [ast.unparse(x) for x in calls_[0].args]
+    phase_arg = a[1]
+    # what infer() leaves: mutation_edges[s] = block edge 1 if phase < 0.5 else edge 0 ; phase := max(p, 1-p)
+    isrc = ast.unparse(inf.node)
+    infer_ok = ("np.where(self.mutation_phase[singletons] < 0.5, self.block_edges[switched_blocks, 1], self.block_edges[switched_blocks, 0])" in isrc
+                and "self.mutation_edges[singletons] = switched_edges" in isrc
+                and "self.mutation_phase[switched] = 1 - self.mutation_phase[switched]" in isrc
+                and "switched = self.mutation_phase < 0.5" in isrc)
+    g.ob("variational.ExpectationPropagation.infer:placement-on-more-probable-edge-and-phase-folded", infer_ok,
+         "infer(): singleton placed on block edge 1 iff phase < 0.5, then phase := max(phase, 1 - phase)",
+         None if infer_ok else "the placement / folding statements of infer() changed shape")
+    # scalar model of one singleton: p0 = prob. of block edge 0 before folding
+    p0 = z3.Real("p0")
+    placed_second = p0 < 0.5
+    folded = z3.If(p0 < 0.5, 1 - p0, p0)
+    if phase_arg == "self.mutation_phase":
+        given = folded
+        how = "self.mutation_phase (probability of the PLACED edge) is credited to the block's FIRST edge"
+    elif phase_arg == "block_phase" and defs.get("block_phase") == "self.mutation_phase.copy()" \
+            and ("block_phase[on_second]", "1 - block_phase[on_second]") in stores \
+            and defs.get("on_second") == "singletons[self.mutation_edges[singletons] != first_edge]" \
+            and defs.get("first_edge") == "self.block_edges[self.mutation_blocks[singletons], 0]":
+        given = z3.If(placed_second, 1 - folded, folded)
+        how = "block_phase = phase of the first edge (flipped back where the singleton sits on the second edge)"
+    else:
+        g.ob(f"{name}:placed-branch-gets-larger-share", False, "orientation of the phase argument",
+             f"cannot interpret the phase argument `{phase_arg}`", verdict="unknown")
+        return
+    share_first, share_second = given, 1 - given
+    placed_share = z3.If(placed_second, share_second, share_first)
+    other_share = z3.If(placed_second, share_first, share_second)
+    s = z3.Solver()
+    s.add(p0 >= 0, p0 <= 1, z3.Not(z3.And(placed_share >= other_share, placed_share + other_share == 1)))
+    r = s.check()
+    ok = r == z3.unsat
+    g.ob(f"{name}:placed-branch-gets-larger-share", ok,
+         "forall p0 in [0,1]: share(placed edge) >= share(other edge) and the two shares sum to 1   (z3; " + how + ")",
+         None if ok else f"counter-example p0 = {s.model()[p0]}: {how}")
